@@ -8,6 +8,7 @@ import (
 	"encoding/json"
 	"encoding/pem"
 	"fmt"
+	"github.com/golang-jwt/jwt/v4"
 	"net/http"
 	"net/url"
 	"strings"
@@ -39,7 +40,11 @@ type tokStep struct {
 	Ms    int64  `json:"ms,omitempty"`
 }
 
-var tokKinds = []string{"valid", "valid", "valid", "tracking", "other-deployment", "alg-none", "hs256-pem", "hs256-der", "claims-edit", "header-edit", "truncated", "bitflip", "empty", "garbage", "mallory-signed", "wrong-cookie-name"}
+var tokKinds = []string{"valid", "valid", "valid", "tracking", "other-deployment", "alg-none", "hs256-pem", "hs256-der", "claims-edit", "header-edit", "truncated", "bitflip", "empty", "garbage", "mallory-signed", "wrong-cookie-name",
+	// tokens the session codec never issued although they carry a signature of the deployment's own key (another component of the
+	// deployment shares the key, as session and tracking codec already do): another signature algorithm, no session marker,
+	// a tracking token's claims with the audience spelt as a string
+	"own-key-other-alg", "own-key-no-marker", "own-key-tracking-claims"}
 
 func genTokens(g *Rng, tier string) *Plan {
 	k := tokKnobs{LifetimeMs: Pick(g, int64(0), 0, 10_000, 300_000, 86_400_000), SameKey: g.Bool(0.5), OtherDiff: Pick(g, "both", "audience", "issuer")}
@@ -284,6 +289,40 @@ func execTokens(t *testing.T, p *Plan) *Result {
 				tok = resignJWT(parts[0], parts[1], other.kp)
 			case "wrong-cookie-name":
 				cookieName = "token2"
+			case "own-key-other-alg":
+				parts := strings.Split(tok, ".")
+				if d.conf.EC {
+					kind = "mallory-signed" // a P-256 key signs ES256 only: no other algorithm to substitute
+					tok = resignJWT(parts[0], parts[1], ecKeys[1])
+					break
+				}
+				m := []jwt.SigningMethod{jwt.SigningMethodRS384, jwt.SigningMethodRS512, jwt.SigningMethodPS256}[int(st.Login+si)%3]
+				hdr := b64url([]byte(`{"alg":"` + m.Alg() + `","typ":"JWT"}`))
+				sig, err := m.Sign(hdr+"."+parts[1], d.kp.Key)
+				if err != nil {
+					panic(err)
+				}
+				tok = hdr + "." + parts[1] + "." + sig
+			case "own-key-no-marker", "own-key-tracking-claims":
+				src := tok
+				if kind == "own-key-tracking-claims" {
+					src = l.tracking
+				}
+				parts := strings.Split(src, ".")
+				if len(parts) != 3 {
+					kind, tok = "garbage", "not.a.token"
+					break
+				}
+				cb, _ := base64.RawURLEncoding.DecodeString(parts[1])
+				var m map[string]any
+				_ = json.Unmarshal(cb, &m)
+				if kind == "own-key-no-marker" {
+					delete(m, "saml-session")
+				} else if a, ok := m["aud"].([]any); ok && len(a) == 1 {
+					m["aud"] = a[0]
+				}
+				nb, _ := json.Marshal(m)
+				tok = resignJWT(strings.Split(tok, ".")[0], b64url(nb), d.kp)
 			}
 			now := time.Now().Add(jump)
 			age := now.Sub(l.mintedAt)
